@@ -132,6 +132,10 @@ class MPSConfig(EmulationConfig):
         ), f"autosave_dt must be larger than {MIN_AUTOSAVE_DT} seconds"
 
         MIN_KRYLOV_TOL = 1.0e-12  # keep numerical stability
+        # Use the stored options: the deprecated `backend_options` dict of the base
+        # class may have overridden the keyword arguments above.
+        precision = self.precision
+        extra_krylov_tolerance = self.extra_krylov_tolerance
         prod_tol = precision * extra_krylov_tolerance
         if prod_tol < MIN_KRYLOV_TOL:
             new_extra_krylov_tolerance = MIN_KRYLOV_TOL / precision
